@@ -159,6 +159,47 @@ def main():
         ck.sample({"kind": "read-after-write", "case": metas[len(metas) // 2][1], "impl": metas[len(metas) // 2][2],
                    "model_spec": res[len(metas) // 2]})
 
+        # ---- solver write-back (FieldScalarModel.post_randomize) followed by every read path --
+        class _Var(object):
+            def __init__(self, bits):
+                self.assignment = bits
+        reqs, metas = [], []
+        for w in ([1, 2, 3, 4, 5] if tier == "thorough" else [1, 2, 3]) + [8, 16, 32, 33, 64]:
+            for s in (False, True):
+                T, O = make_classes(vsc, w, s)
+                o = O()
+                pats = range(1 << w) if w <= 5 else sorted({0, 1, (1 << w) - 1, 1 << (w - 1), (1 << (w - 1)) - 1,
+                                                             (1 << (w - 1)) + 1} | {rng.randrange(1 << w) for _ in range(6)})
+                for p in pats:
+                    bits = format(p, "0%db" % w)
+                    with vsc.raw_mode():
+                        fo = o.f
+                    fm = fo.get_model()
+                    em = o.l.get_model().field_l[0]
+                    got = {}
+                    try:
+                        for m in (fm, em):
+                            m.var = _Var(bits)
+                            m.post_randomize([])
+                            m.var = None
+                        got["scalar.attr"] = int(o.f)
+                        got["scalar.get_val"] = int(fo.get_val())
+                        got["list.getitem"] = int(o.l[0])
+                        got["list.iter"] = [int(x) for x in o.l][0]
+                    except Exception as e:
+                        got = {"exc": type(e).__name__}
+                    metas.append(({"w": w, "s": s, "pattern": p}, got))
+                    reqs.append({"op": "v.readBack", "w": w, "s": s, "v": p})
+        res = drv.batch(reqs)
+        for (case, got), model in zip(metas, res):
+            ck.count("eval_writeback")
+            for path, v in got.items():
+                ck.count("path:writeback->" + path)
+                if v != model:
+                    # the Spec value of a w-bit pattern is its two's complement reading = the model's readBack (readBack_spec)
+                    ck.oracle_fail("writeback:" + path + (":signed" if case["s"] else ":unsigned"), dict(case, read=path), v, model)
+        ck.sample({"kind": "write-back", "case": metas[-1][0], "impl": metas[-1][1], "model": res[-1]})
+
         # ---- part-select --------------------------------------------------------
         reqs, metas = [], []
         pw = list(range(1, 9)) if tier == "thorough" else [1, 3, 5, 8]
@@ -193,7 +234,7 @@ def main():
                                 except Exception as e:
                                     r = "exc:" + type(e).__name__
                                 metas.append(("pwrite", {"w": w, "s": s, "cur": cur, "hi": hi, "lo": lo, "val": val}, r))
-                                reqs.append({"op": "v.partWrite", "cur": cur, "hi": hi, "lo": lo, "val": val})
+                                reqs.append({"op": "v.partWriteField", "w": w, "s": s, "cur": cur, "hi": hi, "lo": lo, "val": val})
                     for k in range(w):
                         a.set_val(cur)
                         try:
@@ -210,7 +251,7 @@ def main():
                             except Exception as e:
                                 r = "exc:" + type(e).__name__
                             metas.append(("bwrite", {"w": w, "s": s, "cur": cur, "k": k, "val": val}, r))
-                            reqs.append({"op": "v.bitWrite", "cur": cur, "k": k, "val": val})
+                            reqs.append({"op": "v.bitWriteField", "w": w, "s": s, "cur": cur, "k": k, "val": val})
         res = drv.batch(reqs)
         for (kind, case, impl), model in zip(metas, res):
             ck.count("eval_partsel")
@@ -227,12 +268,15 @@ def main():
             else:
                 hi, lo = (case["hi"], case["lo"]) if kind == "pwrite" else (case["k"], case["k"])
                 n = hi - lo + 1
+                W, sg = case["w"], case["s"]
                 ok = isinstance(impl, int) and ((impl >> lo) % (1 << n) == case["val"] % (1 << n)
                                                 and impl % (1 << lo) == cur % (1 << lo)
-                                                and (impl >> (hi + 1)) == (cur >> (hi + 1)))
+                                                and (impl % (1 << W)) >> (hi + 1) == (cur % (1 << W)) >> (hi + 1))
                 if not ok:
                     ck.oracle_fail("partsel-write", case, impl,
-                                   "bits[hi:lo]=val mod 2^n, all other bits unchanged")
+                                   "bits[hi:lo]=val mod 2^n, all other bits of the field unchanged")
+                elif not ((-(1 << (W - 1)) <= impl < (1 << (W - 1))) if sg else (0 <= impl < (1 << W))):
+                    ck.oracle_fail("partsel-write-out-of-type", case, impl, "a value of the declared type")
             distinct.add((kind,) + tuple(sorted(case.items())))
         ck.sample({"kind": "part-select", "case": metas[len(metas) // 3][1], "impl": metas[len(metas) // 3][2],
                    "model": res[len(metas) // 3]})
@@ -285,7 +329,8 @@ def main():
                        assumptions=["Python int semantics of &, ~, <<, >> are modelled arithmetically (x & (2^w-1) = x mod 2^w, ~x = -x-1); validated by this sweep",
                                     "part-select writes are judged for hi < width only (the API gives no meaning to wider slices)"],
                        theorems_lost=["Pyvsc.C18.scalar_read_after_write", "Pyvsc.C18.list_read_after_write",
-                                      "Pyvsc.C18.partWrite_spec", "Pyvsc.C18.bitWrite_spec", "Pyvsc.C18.enum_roundtrip"])
+                                      "Pyvsc.C18.partWrite_spec", "Pyvsc.C18.partWriteField_spec", "Pyvsc.C18.bitWrite_spec", "Pyvsc.C18.readBack_spec",
+                                      "Pyvsc.C18.enum_roundtrip"])
         sys.exit(rc)
     except common.InfraError as e:
         print("INFRA-ERROR: " + str(e))
